@@ -13,6 +13,7 @@ Step ==
          [] e.ev = "Retime" -> RetimeOK(e.m1, e.m2, e.r)
          [] e.ev = "RetimeSkip" -> RetimeSkipOK(e.m1, e.m2)
          [] e.ev = "MeatGiven" -> GivenOK(e.m1, e.g)
+         [] e.ev = "Charged" -> ChargedOK(e.b2, e.f2, e.cb, e.cf)
          [] e.ev = "Running" -> RunningOK(e.meat, e.running)
          [] e.ev = "Bump" -> BumpOK(e.b, e.f, e.maxB, e.maxF, e.b2, e.f2, e.dom)
   /\ l' = l + 1 /\ UNCHANGED tid
